@@ -1624,10 +1624,9 @@ class Pipeline:
         This value is `None` if no errors have occurred during
         the pipeline execution.
         """
-        for f in self.functions:
-            if f.error_snapshot:
-                return f.error_snapshot
-        return None
+        snapshots = [f.error_snapshot for f in self.functions if f.error_snapshot]
+        # The most recent error (an earlier failure of another function might still be stored)
+        return max(snapshots, key=lambda snapshot: snapshot.timestamp, default=None)
 
     def nest_funcs(
         self,
